@@ -73,6 +73,41 @@ func hostileBig(t *rapid.T, lens ...int) *big.Int {
 	return pool[rng(t, 0, len(pool)-1, "hostile")]
 }
 
+// boundaryAmounts: the pool every token amount / numeric amount field is drawn from (besides small valid
+// values): unit boundaries of the 9-decimal V2 encoding (whole multiples of 10^9 are stored as uint64
+// integers, everything else as big numbers), machine-word and 128/256-bit boundaries, total supplies,
+// and the negative forms the NeoVM integer encoding allows.
+var boundaryAmounts = func() []*big.Int {
+	p2 := func(n uint) *big.Int { return new(big.Int).Lsh(big.NewInt(1), n) }
+	add := func(x *big.Int, k int64) *big.Int { return new(big.Int).Add(x, big.NewInt(k)) }
+	e9 := big.NewInt(1000000000)
+	mul9 := func(x *big.Int) *big.Int { return new(big.Int).Mul(x, e9) }
+	pow10 := func(n int64) *big.Int { return new(big.Int).Exp(big.NewInt(10), big.NewInt(n), nil) }
+	out := []*big.Int{big.NewInt(0), big.NewInt(1), add(e9, -1), e9, add(e9, 1)}
+	for _, k := range []*big.Int{p2(32), p2(63), add(p2(64), -1), p2(64), add(p2(64), 1), p2(96), add(p2(128), -1), p2(196)} {
+		out = append(out, mul9(k), add(mul9(k), 1), add(mul9(k), -1))
+	}
+	for _, n := range []uint{63, 64, 127, 128, 255, 256} {
+		out = append(out, add(p2(n), -1), p2(n), add(p2(n), 1))
+	}
+	// total supplies: ONT 10^9 (v1) / 10^18 (V2), ONG 10^18 (v1) / 10^27 (V2)
+	for _, sup := range []*big.Int{pow10(18), pow10(27)} {
+		out = append(out, add(sup, -1), sup, add(sup, 1))
+	}
+	// largest whole / fractional amounts below 2^256
+	q := new(big.Int).Div(add(p2(256), -1), e9)
+	out = append(out, mul9(q), add(mul9(q), -1000000000))
+	n := len(out)
+	for _, x := range out[1:n] { // negative forms
+		if x.BitLen() <= 64 || x.BitLen() == 128 || x.BitLen() > 255 {
+			out = append(out, new(big.Int).Neg(x))
+		}
+	}
+	return out
+}()
+
+func boundaryAmount(t *rapid.T) *big.Int { return boundaryAmounts[rng(t, 0, len(boundaryAmounts)-1, "bamount")] }
+
 func hostileU64(t *rapid.T, lens ...int) uint64 {
 	b := hostileBig(t, lens...)
 	if b.Sign() < 0 {
@@ -360,8 +395,9 @@ var otherShapes = map[string]string{
 }
 
 type callGen struct {
-	t *rapid.T
-	m *model
+	t       *rapid.T
+	m       *model
+	amounts bool // the numbers of this contract are (also) token amounts: draw them from boundaryAmounts most of the time
 }
 
 func (g *callGen) anyID() []byte {
@@ -388,6 +424,9 @@ func (g *callGen) numFor(id []byte) *big.Int {
 	}
 	if rng(g.t, 0, 9, "nvalid") < 3 {
 		return big.NewInt(int64(rng(g.t, 1, 3, "small")))
+	}
+	if g.amounts && rng(g.t, 0, 9, "namount") < 6 {
+		return boundaryAmount(g.t)
 	}
 	return hostileBig(g.t, lens...)
 }
@@ -484,7 +523,11 @@ func (g *callGen) slot(e *enc, kind byte, curID []byte) {
 		}
 		e.vbig(cnt)
 		for i := 0; i < real; i++ {
-			e.vbig(hostileBig(t, 500, 10000))
+			if rng(t, 0, 1, "oamount") == 0 {
+				e.vbig(boundaryAmount(t))
+			} else {
+				e.vbig(hostileBig(t, 500, 10000))
+			}
 		}
 	case 'P': // global params: count, (key, value) strings
 		real := rng(t, 0, 3, "np")
@@ -506,7 +549,11 @@ func (g *callGen) slot(e *enc, kind byte, curID []byte) {
 		for i := 0; i < real; i++ {
 			g.slot(e, 'A', nil)
 			g.slot(e, 'A', nil)
-			e.vbig(hostileBig(t, 100000))
+			if rng(t, 0, 2, "xamount") > 0 {
+				e.vbig(boundaryAmount(t))
+			} else {
+				e.vbig(hostileBig(t, 100000))
+			}
 		}
 	default:
 		e.vb(nil)
@@ -593,6 +640,7 @@ func genHostile(t *rapid.T, m *model, methods map[string][]string) (natCall, str
 	g := &callGen{t: t, m: m}
 	cname := pick(t, []string{"ontid", "ontid", "ontid", "ontid", "ontid", "ontid", "gov", "gov", "gov", "auth", "auth", "ont", "ong", "param",
 		"hsync", "ccm", "lockproxy", "ontfs", "ontfs", "system"}, "contract")
+	g.amounts = cname == "ont" || cname == "ong" || cname == "gov" || cname == "lockproxy" || cname == "ontfs" || cname == "ccm"
 	chex := natAddrHex(cname)
 	ms := methods[chex]
 	method := "nosuchmethod"
